@@ -32,7 +32,7 @@ ASSUMPTIONS = [
     "thread interleavings under the GIL are not controlled: the threaded runs are a smoke test; the argument rests on the per-task premises checked under owned schedules",
     "values are fingerprinted by bytes/shape/dtype; non-array task values by repr",
 ]
-EXCLUDE = ("KF-layout-drift-over-shuffle", "KF-minmax-empty", "KF-pad-wide", "KF-tensordot-int-dtype", "KF-argext-ties-axis-none", "KF-setitem-int-with-negstep")
+EXCLUDE = exclusions.ALL
 WEIGHTS = {"setitem": 6, "elemwise": 10, "elemwise2": 9, "shape": 6, "stack": 4, "index": 8, "rechunk": 9, "reduction": 6, "scan": 3, "window": 5, "map_blocks": 3, "linalg": 1}
 
 
